@@ -1,32 +1,9 @@
-(* Corr_C12.v — comparison and monitor for C12 (request signatures verify over what the upstream received).
-
-   A case is one socket round trip client -> sso-proxy -> backend.  It carries the request as the
-   proxy's net/http server parsed it ([r0]; http.ReadRequest on the bytes sent), the session identity,
-   the Request.Cookies() oracle, the body the client sent, the request the backend RECEIVED, the two
-   canonical strings the implementation computes on the received request (mapRequestToHashInput,
-   hmacauth StringToSign), and the verification verdicts computed in Go with the real primitives:
-   RSA-PKCS1v15/SHA-256 under the key published at /oauth2/v1/certs for the received kid, and
-   hmacauth.AuthenticateRequest.  No proofs here. *)
+(* Corr_C12.v — what the correspondence shards import: the comparison and the monitor for C12
+   (Corr_C12_defs.v: case, judge, classify) and the functions that unpack the string literals of a case.
+   No proofs here. *)
 From Coq Require Export Uint63.
-From V Require Export Base CorrBase Signer Gen_Signer.
+From V Require Export Base CorrBase Signer Gen_Signer Corr_C12_defs.
 
-Record obs_req := {
-  o_method : str;
-  o_headers : headers;      (* all received headers, keys sorted *)
-  o_path : str;
-  o_rawquery : str;
-  o_body : str
-}.
-
-Inductive case :=
-| CFwd (c : cfg) (ident : option identity) (r0 : request) (parsed : list (str * str)) (sent_body : str)
-       (recv : obs_req) (impl_rsa impl_hmac : str)
-       (v_rsa : option bool) (v_kid : bool) (v_hmac : N)
-| CNotFwd (expected_forward : bool) (status : N).
-
-(* the code's lists, re-extracted from the source on every run *)
-Definition gen_cov : list str := signedHeaders.
-Definition gen_covh : list str := hmac_names SignatureHeaders.
 (* Strings are emitted packed, seven bytes per primitive 63-bit integer, little-endian (coqc parses a
    primitive integer literal an order of magnitude faster than seven numerals of type N):
    [pk rem [i1; ...; ik]] = 7 bytes of each of i1 .. i(k-1), then [rem] bytes of ik;
@@ -43,96 +20,3 @@ Fixpoint pk (rem : nat) (l : list int) : str :=
   | i :: t => unpack7 7 i ++ pk rem t
   end.
 Definition pkc (rem : nat) (l : list (list int)) : str := pk rem (concat l).
-Definition loopback : str := [49;50;55;46;48;46;48;46;49]. (* "127.0.0.1" *)
-
-(* the received request as an upstream handler has it: Body non-nil, no fragment *)
-Definition of_obs (o : obs_req) : request :=
-  {| r_method := o_method o; r_host := []; r_headers := o_headers o; r_path := o_path o;
-     r_rawquery := o_rawquery o; r_fragment := []; r_body := Some (o_body o); r_chunked := false;
-     r_sso_sig := None; r_kid := None; r_gap_sig := None |}.
-
-Definition has_header (k : str) (h : headers) : bool := negb (is_empty (hvals k h)).
-
-(* ---- the property on observations (independent of the model of the chain) ----
-   signing enabled => the received request carries a signature that the upstream verifies, under the
-   published key named by kid, over the DOCUMENTED canonical form of what it received; likewise the
-   HMAC; and the body arrived intact. *)
-Definition signing_on (c : cfg) : bool := negb (c_skip c).
-Definition holds_rsa (c : cfg) (recv : obs_req) (impl_rsa : str) (v_rsa : option bool) (v_kid : bool) : bool :=
-  match c_signer c with
-  | Some _ => negb (signing_on c) ||
-              (option_eqb bool_eqb v_rsa (Some true) && v_kid &&
-               str_eqb (canon_rsa documented_covered (of_obs recv)) impl_rsa)
-  | None => true
-  end.
-Definition holds_hmac (c : cfg) (recv : obs_req) (impl_hmac : str) (v_hmac : N) : bool :=
-  match c_hmac c with
-  | Some _ => negb (signing_on c) ||
-              (N.eqb v_hmac 3 && str_eqb (canon_hmac documented_covered (of_obs recv)) impl_hmac)
-  | None => true
-  end.
-Definition holds_body (sent_body : str) (recv : obs_req) : bool := str_eqb sent_body (o_body recv).
-
-(* ---- model prediction vs observation, on projected observables ---- *)
-Definition proj_keys : list str := gen_cov ++ gen_covh.
-Definition proj_eq (p : request) (o : obs_req) : bool :=
-  str_eqb (r_method p) (o_method o) && str_eqb (r_path p) (o_path o) &&
-  str_eqb (r_rawquery p) (o_rawquery o) && str_eqb (body_bytes p) (o_body o) &&
-  forallb (fun k => strs_eqb (hvals k (r_headers p)) (hvals k (o_headers o))) proj_keys.
-
-Definition sig_present (p : request) : bool :=
-  match r_sso_sig p with Some _ => true | None => has_header sso_signature (r_headers p) end.
-Definition gap_present (p : request) : bool :=
-  match r_gap_sig p with Some _ => true | None => has_header gap_signature (r_headers p) end.
-
-(* known findings: K1 = a Connection token names a covered or signature header (hop-by-hop removal
-   after signing); K2 = the Content-Length header at signing time is not the one the transport writes *)
-Definition protected : list str := documented_covered ++ sig_headers.
-
-Definition judge (cs : case) : N :=
-  match cs with
-  | CNotFwd expected _ => code expected true 0
-  | CFwd c ident r0 parsed sent_body recv impl_rsa impl_hmac v_rsa v_kid v_hmac =>
-      let rs := at_sign_time c parsed ident r0 in
-      let p := received gen_cov gen_covh c parsed ident loopback r0 in
-      let certs := published_certs c in
-      let rsa_on := signing_on c && match c_signer c with Some _ => true | None => false end in
-      let hmac_on := signing_on c && match c_hmac c with Some _ => true | None => false end in
-      let m_proj := negb (proj_eq p recv) in
-      let m_canon := negb (str_eqb (canon_rsa gen_cov (of_obs recv)) impl_rsa) ||
-                     negb (str_eqb (canon_hmac gen_covh (of_obs recv)) impl_hmac) in
-      let m_rsa := rsa_on && negb (option_eqb bool_eqb (verify_rsa gen_cov certs p) v_rsa &&
-                                   bool_eqb (kid_published certs p) v_kid &&
-                                   bool_eqb (sig_present p) (has_header sso_signature (o_headers recv))) in
-      let m_hmac := hmac_on && negb (match c_hmac c with
-                                     | Some k => N.eqb (verify_hmac gen_covh k p) v_hmac
-                                     | None => true end &&
-                                     bool_eqb (gap_present p) (has_header gap_signature (o_headers recv))) in
-      let m_body := negb (str_eqb (body_bytes r0) sent_body) in
-      let holds := holds_rsa c recv impl_rsa v_rsa v_kid && holds_hmac c recv impl_hmac v_hmac &&
-                   holds_body sent_body recv in
-      let known : N :=
-        if negb (conn_safe protected (r_headers rs)) then 1
-        else if negb (cl_canonical rs) then 2 else 0 in
-      code (m_proj || m_canon || m_rsa || m_hmac || m_body) holds known
-  end.
-
-(* classes: 0 = not forwarded; otherwise 1 + flags *)
-Definition classify (cs : case) : N :=
-  match cs with
-  | CNotFwd _ _ => 0
-  | CFwd c ident r0 parsed _ recv _ _ v_rsa _ v_hmac =>
-      let rs := at_sign_time c parsed ident r0 in
-      1 + (match c_signer c with Some _ => 1 | None => 0 end)
-        + 2 * (match c_hmac c with Some _ => 1 | None => 0 end)
-        + 4 * (if c_skip c then 1 else 0)
-        + 8 * (match ident with Some _ => 1 | None => 0 end)
-        + 16 * (if is_empty (o_body recv) then 0 else 1)
-        + 32 * (if r_chunked r0 then 1 else 0)
-        + 64 * (if is_empty (hvals connection (r_headers r0)) then 0 else 1)
-        + 128 * (if conn_safe protected (r_headers rs) then 0 else 1)
-        + 256 * (if cl_canonical rs then 0 else 1)
-        + 512 * (match v_rsa with Some true => 1 | _ => 0 end)
-        + 1024 * (if N.eqb v_hmac 3 then 1 else 0)
-        + 2048 * (if is_empty (o_rawquery recv) then 0 else 1)
-  end.
